@@ -1,0 +1,26 @@
+//go:build verif
+
+package ring
+
+// Contracts for govc (contract-based deductive verification; see /verif/DESIGN.md).
+// This file holds only comments and is compiled only with -tags verif.
+
+//@ func (*Ring).init
+//@   tags C14
+//@   requires r != nil
+//@   modifies r.next, r.prev
+//@   ensures result == r && r.next == r && r.prev == r
+
+//@ func (*Ring).Next
+//@   tags C14
+//@   requires r != nil
+//@   modifies r.next, r.prev
+//@   ensures old(r.next) == nil ==> (result == r && r.next == r && r.prev == r)
+//@   ensures old(r.next) != nil ==> (result == old(r.next) && r.next == old(r.next) && r.prev == old(r.prev))
+
+//@ func (*Ring).Prev
+//@   tags C14
+//@   requires r != nil
+//@   modifies r.next, r.prev
+//@   ensures old(r.next) == nil ==> (result == r && r.next == r && r.prev == r)
+//@   ensures old(r.next) != nil ==> (result == old(r.prev) && r.next == old(r.next) && r.prev == old(r.prev))
